@@ -6,6 +6,7 @@ import (
 	"sort"
 	"strings"
 	"sync"
+	"sync/atomic"
 
 	at "github.com/DanielSvub/anytype"
 	"verif/peek"
@@ -595,6 +596,14 @@ func listRoOps() []roOp {
 		{"Equals(equal copy)", func(s interface{}, _ at.List, _ at.Object) interface{} {
 			return L(s).Equals(at.NewList(L(s).Slice()...))
 		}},
+		{"ForEachAsync(count)", func(s interface{}, _ at.List, _ at.Object) interface{} {
+			var n int64
+			ret := L(s).ForEachAsync(func(int, interface{}) { atomic.AddInt64(&n, 1) })
+			return fmt.Sprintf("%d callbacks, receiver returned: %v", atomic.LoadInt64(&n), ret == L(s))
+		}},
+		{"MapAsync(identity)", func(s interface{}, _ at.List, _ at.Object) interface{} {
+			return L(s).MapAsync(func(_ int, v interface{}) interface{} { return v })
+		}},
 		{"SubList(0,0)", func(s interface{}, _ at.List, _ at.Object) interface{} { return L(s).SubList(0, 0) }},
 		{"Concat(own)", func(s interface{}, own at.List, _ at.Object) interface{} { return L(s).Concat(own) }},
 		{"Filter(always)", func(s interface{}, _ at.List, _ at.Object) interface{} {
@@ -643,6 +652,14 @@ func objRoOps() []roOp {
 				o.Set(last, "differs")
 			}
 			return O(s).Equals(o)
+		}},
+		{"ForEachAsync(count)", func(s interface{}, _ at.List, _ at.Object) interface{} {
+			var n int64
+			ret := O(s).ForEachAsync(func(string, interface{}) { atomic.AddInt64(&n, 1) })
+			return fmt.Sprintf("%d callbacks, receiver returned: %v", atomic.LoadInt64(&n), ret == O(s))
+		}},
+		{"MapAsync(identity)", func(s interface{}, _ at.List, _ at.Object) interface{} {
+			return O(s).MapAsync(func(_ string, v interface{}) interface{} { return v })
 		}},
 		{"Keys(sorted)", func(s interface{}, _ at.List, _ at.Object) interface{} {
 			ks := O(s).Keys().StringSlice()
@@ -767,7 +784,12 @@ func roScenario(sh shape, ops []roOp, plan [][]int, maxBound int) scenario {
 			// expected results: the same calls made sequentially on a twin
 			town, townObj := at.NewList(100+t), at.NewObject("own", 100+t, "a", 50+t)
 			for _, i := range p {
-				th.want = append(th.want, renderSafe(func() interface{} { return ops[i].F(twin, town, townObj) }))
+				// the sequential twin runs under the scheduler as well (alone, default schedule): library code that
+				// spawns and waits needs its synchronisation to be live
+				var w string
+				i := i
+				rtSeq(func() { w = renderSafe(func() interface{} { return ops[i].F(twin, town, townObj) }) })
+				th.want = append(th.want, w)
 			}
 			ths[t] = th
 		}
@@ -839,10 +861,42 @@ func renderSafe(f func() interface{}) (s string) {
 func readonlyScenarios(thorough bool) []scenario {
 	var out []scenario
 	shapes := roShapes()
+	isAsync := func(o roOp) bool {
+		return strings.HasPrefix(o.Name, "ForEachAsync") || strings.HasPrefix(o.Name, "MapAsync")
+	}
 	for si, sh := range shapes {
-		ops := listRoOps()
+		all := listRoOps()
 		if si == len(shapes)-1 {
-			ops = objRoOps()
+			all = objRoOps()
+		}
+		// overlapping ASYNC calls on one shared container (each spawns its own workers): every pair of the async
+		// operations with each other and with String, on the two-element list and on the object, preemption bound 1 (2 in the thorough tier)
+		if si >= len(shapes)-2 {
+			var idx []int
+			for i, o := range all {
+				if isAsync(o) || o.Name == "String" || o.Name == "String(decoded)" {
+					idx = append(idx, i)
+				}
+			}
+			for x := 0; x < len(idx); x++ {
+				for y := x; y < len(idx); y++ {
+					if isAsync(all[idx[x]]) || isAsync(all[idx[y]]) {
+						ob := 1
+						if thorough {
+							ob = 2
+						}
+						sc := roScenario(sh, all, [][]int{{idx[x]}, {idx[y]}}, ob)
+						sc.Name = "[overlapping async calls] " + sc.Name
+						out = append(out, sc)
+					}
+				}
+			}
+		}
+		var ops []roOp
+		for _, o := range all {
+			if !isAsync(o) {
+				ops = append(ops, o)
+			}
 		}
 		// two threads, one call each: every unordered pair of operations
 		for i := range ops {
